@@ -13,6 +13,7 @@
 //! * channel D, `serde_json::Value` as an intermediary that reorders keys.
 
 pub mod cases;
+pub mod types;
 pub mod io;
 pub mod tok;
 
